@@ -51,6 +51,8 @@ pub struct StepInfo {
     pub moved_up: u8,
     pub tie_with_marker: bool,
     pub ambiguous: u8,
+    pub exact_tie: u8,
+    pub exact_tie_mandatory: u8,
 }
 
 /// Expected state right after the fifth observation.
@@ -63,6 +65,37 @@ pub fn initial_state(p: f64, first5: &[f64]) -> QState {
         m: [1., 1. + 2. * p, 1. + 4. * p, 3. + 2. * p, 5.],
         dm: [0., p / 2., p, (1. + p) / 2., 1.],
     }
+}
+
+/// Exact (rational) comparison of the parabolic prediction with the two neighbouring
+/// heights: returns (sign(par - q0), sign(par - q2)) where
+/// par = q1 + d/(n2-n0) * ((n1-n0+d)(q2-q1)/(n2-n1) + (n2-n1-d)(q1-q0)/(n1-n0)).
+pub fn exact_parabolic_signs(q: [f64; 3], n: [i64; 3], d: i64) -> (i32, i32) {
+    use crate::exact::{decompose, Big};
+    let dec: Vec<(i64, i64)> = q.iter().map(|&x| decompose(x)).collect();
+    let e = dec.iter().filter(|d| d.0 != 0).map(|d| d.1).min().unwrap_or(0);
+    let big: Vec<Big> = dec.iter().map(|&(m, ex)| if m == 0 { Big::zero() } else { Big::from_i64(m).shl((ex - e) as u32) }).collect();
+    let (q0, q1, q2) = (&big[0], &big[1], &big[2]);
+    let nn = Big::from_i64(n[2] - n[0]);
+    let a = Big::from_i64(n[1] - n[0] + d);
+    let b = Big::from_i64(n[2] - n[1]);
+    let c = Big::from_i64(n[2] - n[1] - d);
+    let dd = Big::from_i64(n[1] - n[0]);
+    // par - q1 = d * (a*(q2-q1)*dd + c*(q1-q0)*b) / (nn*b*dd); all of nn, b, dd are positive
+    let t = a.mul(&q2.sub(q1)).mul(&dd).add(&c.mul(&q1.sub(q0)).mul(&b)).mul(&Big::from_i64(d));
+    let u = nn.mul(&b).mul(&dd);
+    let sign = |x: &Big| -> i32 {
+        if x.is_zero() {
+            0
+        } else if x.neg {
+            -1
+        } else {
+            1
+        }
+    };
+    let s0 = sign(&q1.sub(q0).mul(&u).add(&t));
+    let s2 = sign(&q1.sub(q2).mul(&u).add(&t));
+    (s0, s2)
 }
 
 fn short_dyadic(v: f64) -> bool {
@@ -130,8 +163,27 @@ pub fn check_step(pre: &QState, x: f64, post: &QState) -> Result<StepInfo, (Stri
                         + ((n[i + 1] - n[i] - s) as f64) * (q[i] - q[i - 1]) / (n[i] - n[i - 1]) as f64);
             let j = if s < 0 { i - 1 } else { i + 1 };
             let lin = q[i] + sf * (q[j] - q[i]) / (n[j] - n[i]) as f64;
-            let inside_sure = q[i - 1] + tol_q < par && par < q[i + 1] - tol_q;
-            let inside_maybe = q[i - 1] - tol_q < par && par < q[i + 1] + tol_q;
+            let mut inside_sure = q[i - 1] + tol_q < par && par < q[i + 1] - tol_q;
+            let mut inside_maybe = q[i - 1] - tol_q < par && par < q[i + 1] + tol_q;
+            if inside_maybe && !inside_sure && n[i + 1] > n[i] && n[i] > n[i - 1] {
+                // near a threshold: decide in exact rational arithmetic. An exact tie with a
+                // neighbour's height is NOT strictly between: P-square prescribes the linear
+                // formula, and no rounding is involved in that decision.
+                let (s0, s2) = exact_parabolic_signs([q[i - 1], q[i], q[i + 1]], [n[i - 1], n[i], n[i + 1]], s);
+                if s0 == 0 || s2 == 0 {
+                    info.exact_tie += 1;
+                    // ... unless floating-point evaluation of the textbook expression misses the
+                    // tie by a rounding error ("up to the rounding of the same arithmetic"): only
+                    // when it reproduces the tie exactly is the strict comparison mandatory
+                    if par == q[i - 1] || par == q[i + 1] {
+                        inside_maybe = false;
+                        info.exact_tie_mandatory += 1;
+                    }
+                } else if !(s0 > 0 && s2 < 0) {
+                    // exactly outside, numerically within rounding of the threshold: both admitted
+                    inside_sure = false;
+                }
+            }
             if inside_maybe {
                 options.push((par, n[i] + s, 1, s));
             }
